@@ -15,4 +15,7 @@ pub enum DriverError {
     #[error("Unable to find binary {bin_name}")]
     #[diagnostic(code("D-001"))]
     BinaryNotFound { bin_name: String },
+    #[error("Unable to read file {path}: {message}")]
+    #[diagnostic(code("D-002"))]
+    FileNotReadable { path: String, message: String },
 }
